@@ -147,6 +147,51 @@ def lp_unbounded(rng, mmax, nmax, dy):
     return c, A, b
 
 
+def lp_strip(rng):
+    """feasible region = strip between two opposite parallel rows  lo <= a.x <= hi  (both written as <= rows, scaled,
+    possibly duplicated), 2-3 variables, objective pushing along the strip (unbounded), against it, or across it;
+    lo > hi gives the infeasible variant, lo == hi an equality pair; optional cap row makes it bounded"""
+    n = rng.choice([2, 2, 3])
+    while True:
+        a = [rng.randint(-3, 3) for _ in range(n)]
+        if any(v > 0 for v in a) and any(v < 0 for v in a):
+            break
+    kind = rng.random()
+    lo = rng.randint(-2, 3)
+    if kind < 0.2:
+        hi = lo - rng.randint(1, 3)            # infeasible strip
+    elif kind < 0.4:
+        hi = lo                                # equality pair
+    else:
+        hi = lo + rng.randint(1, 3)
+    k1 = rng.choice([1, 1, 2, 3, 0.5])
+    k2 = rng.choice([1, 1, 2, 3, 0.5])
+    A = [[k1 * v for v in a], [-k2 * v for v in a]]
+    b = [k1 * hi, -k2 * lo]
+    if rng.random() < 0.5:
+        A.reverse(); b.reverse()
+    if rng.random() < 0.15:                    # a third parallel row
+        k3 = rng.choice([1, 2])
+        A.append([k3 * v for v in a]); b.append(k3 * (hi + rng.randint(0, 2)))
+    if rng.random() < 0.15:                    # cap: bounded variant
+        A.append([1] * n); b.append(rng.randint(2, 9))
+    # a non-negative direction along the strip: d with a.d = 0
+    pos = [j for j in range(n) if a[j] > 0]; neg = [j for j in range(n) if a[j] < 0]
+    d = [0] * n
+    jp, jn = rng.choice(pos), rng.choice(neg)
+    d[jp], d[jn] = -a[jn], a[jp]
+    r = rng.random()
+    if r < 0.6:
+        c = [rng.choice([1, 2, 3]) * v for v in d]          # along the strip
+        if rng.random() < 0.3:
+            c = [v + rng.randint(0, 1) for v in c]
+    elif r < 0.8:
+        c = [rng.randint(-3, 3) for _ in range(n)]
+    else:
+        c = list(a)                                         # across the strip
+    return c, A, b
+
+
 FAMILIES = [("random", lp_random), ("bounded", lp_bounded), ("degenerate", lp_degenerate),
             ("phase1", lp_phase1), ("infeasible", lp_infeasible), ("unbounded", lp_unbounded)]
 
